@@ -4,7 +4,7 @@
 
     Byte-faithful: every slice is explicit ([slice_chk] = the indexing form, [Panic] when out of range;
     [slice_get] = the [get] form).  [v0 = true] is the code as it was: [self.data = &self.data[advance..]];
-    [v0 = false] the repaired code ([self.data.get(advance..).unwrap_or(&[])], commit fa13a8b).
+    [v0 = false] the repaired code ([self.data.get(advance..).unwrap_or(&[])], commit 4e78a7d).
     Definitions only. *)
 From KV Require Import Bytes RustInt.
 Open Scope N_scope.
